@@ -132,4 +132,37 @@ Section Authz.
         ({| a_facts := fs; a_rules := a_rules a; a_checks := a_checks a; a_policies := a_policies a;
             a_dirty := true; a_limits := a_limits a |}, Ok (query_rule rx q fs))
     end.
+
+  (* ---------- histories of operations on one authorizer (C13, C12, C18) ---------- *)
+  Inductive aop :=
+  | OAddFact (f : pred) | OAddRule (r : rule) | OAddCheck (c : check) | OAddPolicy (p : policy)
+  | OAuthorize | OQuery (q : rule) | OReset.
+
+  Definition astep (tok : list block) (a : astate) (o : aop) : astate :=
+    match o with
+    | OAddFact f => add_fact a f
+    | OAddRule r => add_rule a r
+    | OAddCheck c => add_check a c
+    | OAddPolicy p => add_policy a p
+    | OAuthorize => fst (authorize tok a)
+    | OQuery q => fst (query a q)
+    | OReset => reset a
+    end.
+
+  (* what an operation lets the caller observe *)
+  Inductive aoutput :=
+  | OutNone | OutVerdict (v : verdict) | OutResult (r : res (list pred)).
+
+  Definition aobserve (tok : list block) (a : astate) (o : aop) : aoutput :=
+    match o with
+    | OAuthorize => OutVerdict (snd (authorize tok a))
+    | OQuery q => OutResult (snd (query a q))
+    | _ => OutNone
+    end.
+
+  Fixpoint atrace (tok : list block) (ops : list aop) (a : astate) : list aoutput :=
+    match ops with
+    | [] => []
+    | o :: ops' => aobserve tok a o :: atrace tok ops' (astep tok a o)
+    end.
 End Authz.
